@@ -578,4 +578,143 @@ theorem Good.moved {A A' : Nat → KSt} {k inv : Nat} {s s' : State} {g : Ghost}
       obtain ⟨τ, h1, h2, h3⟩ := hval hk
       exact ⟨τ, h1, by omega, by rw [hA' _ h2]; exact h3⟩
 
+/-- the chain of `!hiBit k`'s side after the forwarding, as the chain of a cell -/
+theorem chB_eq_chId (s : State) (b : Bool) : chB s b = chId s (if b then .high else .low) := by
+  cases b <;> rfl
+
+/-- **hindsight across a `clear`**: the justification of a reader survives the store that empties the
+(active) cell `id`: all nodes of its chain die at once, with the values and successors they have now. -/
+theorem Good.cleared {A A' : Nat → KSt} {k inv : Nat} {s s' : State} {g : Ghost} {id : CellId}
+    {cur : Option Nat} (hgood : Good g.cr A k inv s cur) (H : HInv s g) (act : Active g id)
+    (u : Update s s' g id []) (hh : s'.heap = s.heap)
+    (hnow : s'.now = s.now + 1) (hA' : ∀ τ, τ ≤ s.now → A' τ = A τ) (hA : A s.now = absOf s k)
+    (hinv : inv ≤ s.now) : Good g.cr A' k inv s' cur := by
+  have H' := hinv_update H act u
+  obtain ⟨hC, hO⟩ := u.chains H act
+  have hmv := u.cell0_moved_iff H act
+  have hAnow : A' s.now = absOf s k := by rw [hA' _ (Nat.le_refl _)]; exact hA
+  have hlive : ∀ j, Live s' g.cr j → Live s g.cr j ∧ j ∉ chId s id := by
+    intro j hl
+    rw [live_iff] at hl
+    rcases hl with ⟨id', hm⟩ | ⟨hm, hcp⟩
+    · by_cases hid : id' = id
+      · subst hid; rw [hC] at hm; cases hm
+      · rw [hO id' hid] at hm
+        exact ⟨(live_iff s g.cr j).2 (Or.inl ⟨id', hm⟩), fun hj => H.disjoint act hid hj hm⟩
+    · have hm0 : s.cell0 ≠ .moved := fun h => hm (hmv.2 h)
+      refine ⟨(live_iff s g.cr j).2 (Or.inr ⟨hm0, hcp⟩), ?_⟩
+      intro hj
+      have hp : g.ph = .pre := by
+        rcases act with ⟨_, hp⟩ | ⟨_, hp⟩
+        · exact hp
+        · exact absurd (H.post hp) hm0
+      have hid : id = .c0 := act.pre_iff.1 hp
+      subst hid
+      exact H.oNotCopy j hj hcp
+  have hchain := H.isChain id
+  have hlt : ∀ c ∈ chId s id, c < s.heap.length := fun c hc => H.chain_lt hc
+  -- nodes of the cleared chain that were on the live chain of `k`
+  have onC : liveId s k = id → ∀ (n c : Nat), ((s.heap.length : Int) - ord g.cr c).toNat ≤ n → c ∈ chId s id →
+      (∀ i ∈ chId s id, ord g.cr i < ord g.cr c → (nodeAt s.heap i).key ≠ k) →
+      Good g.cr A' k inv s' (some c) := by
+    intro hlid n
+    have hlc : LC s k = chId s id := by rw [H.LC_eq, hlid]
+    induction n with
+    | zero =>
+      intro c hn hc _
+      have := hlt c hc
+      have := ord_le_self g.cr c
+      omega
+    | succ n ih =>
+      intro c hn hc hbefore
+      have hcl := hlt c hc
+      have hn' := getElem?_nodeAt hcl
+      refine .off (fun hl => (hlive c hl).2 hc) (by rw [hh]; exact hcl) ?_ ?_
+      · intro hk
+        rw [hh] at hk ⊢
+        have hle : ∀ i ∈ chId s id, ord g.cr i ≤ ord g.cr c → (nodeAt s.heap i).key ≠ k := by
+          intro i hi hic
+          rcases Int.lt_or_eq_of_le hic with hlt' | heq
+          · exact hbefore i hi hlt'
+          · rw [ord_inj heq]; exact hk
+        cases hnx : (nodeAt s.heap c).next with
+        | none =>
+          have h3 := hchain.succ_none H.nextOK hc hn' hnx
+          refine .absent (τ := s.now) hinv (by omega) ?_
+          rw [hAnow, H.absOf_none_iff, hlc]
+          intro i hi
+          exact hle i hi (h3 i hi)
+        | some d =>
+          obtain ⟨hd, h3⟩ := hchain.succ_some H.nextOK hc hn' hnx
+          have hcd := (H.nextOK c _ d hn' hnx).1
+          refine ih d (by omega) hd ?_
+          intro i hi hid
+          exact hle i hi (h3 i hi hid)
+      · intro hk
+        rw [hh] at hk ⊢
+        refine ⟨s.now, hinv, by omega, ?_⟩
+        rw [hAnow]
+        exact H.absOf_some_iff.2 ⟨c, by rw [hlc]; exact hc, hk, rfl⟩
+  -- nodes of the cleared chain that a reader of the other side stands on
+  have forC : ∀ {τ : Nat}, chB s (!hiBit k) = chId s id → inv ≤ τ → τ ≤ s.now → A τ = none →
+      ∀ (n c : Nat), ((s.heap.length : Int) - ord g.cr c).toNat ≤ n → c ∈ chId s id →
+      Good g.cr A' k inv s' (some c) := by
+    intro τ hB h1 h2 h3 n
+    induction n with
+    | zero =>
+      intro c hn hc
+      have := hlt c hc
+      have := ord_le_self g.cr c
+      omega
+    | succ n ih =>
+      intro c hn hc
+      have hcl := hlt c hc
+      have hn' := getElem?_nodeAt hcl
+      have hside : (nodeAt s.heap c).key ≠ k := by
+        intro hk
+        have := H.chB_side (hB ▸ hc)
+        rw [hk] at this
+        cases hb : hiBit k <;> rw [hb] at this <;> cases this
+      refine .off (fun hl => (hlive c hl).2 hc) (by rw [hh]; exact hcl) ?_
+        (fun hk => absurd (by rw [hh] at hk; exact hk) hside)
+      intro _
+      rw [hh]
+      cases hnx : (nodeAt s.heap c).next with
+      | none => exact .absent h1 (by omega) (by rw [hA' _ h2]; exact h3)
+      | some d =>
+        obtain ⟨hd, -⟩ := hchain.succ_some H.nextOK hc hn' hnx
+        have hcd := (H.nextOK c _ d hn' hnx).1
+        exact ih d (by omega) hd
+  induction hgood with
+  | absent h1 h2 h3 => exact .absent h1 (by omega) (by rw [hA' _ h2]; exact h3)
+  | @on c hcm hbefore =>
+    by_cases hlid : liveId s k = id
+    · have hlc : LC s k = chId s id := by rw [H.LC_eq, hlid]
+      rw [hlc] at hcm hbefore
+      exact onC hlid _ c (Nat.le_refl _) hcm hbefore
+    · have hlc' : LC s' k = LC s k := by rw [u.LC_eq H act, if_neg hlid]
+      refine .on (by rw [hlc']; exact hcm) ?_
+      intro i hi hic
+      rw [hlc'] at hi
+      rw [hh]
+      exact hbefore i hi hic
+  | @foreign c τ hm hcm h1 h2 h3 =>
+    by_cases hB : chB s (!hiBit k) = chId s id
+    · rw [hB] at hcm
+      exact forC hB h1 h2 h3 _ c (Nat.le_refl _) hcm
+    · have hne : (if (!hiBit k) then CellId.high else CellId.low) ≠ id := by
+        intro he; apply hB; rw [chB_eq_chId, he]
+      have hB' : chB s' (!hiBit k) = chB s (!hiBit k) := by
+        rw [chB_eq_chId, chB_eq_chId]; exact hO _ hne
+      exact .foreign (hmv.2 hm) (by rw [hB']; exact hcm) h1 (by omega) (by rw [hA' _ h2]; exact h3)
+  | @off c hcl hclt _ hval ih =>
+    refine .off (fun hl => hcl (hlive c hl).1) (by rw [hh]; exact hclt) ?_ ?_
+    · intro hk
+      rw [hh] at hk ⊢
+      exact ih hk
+    · intro hk
+      rw [hh] at hk ⊢
+      obtain ⟨τ, h1, h2, h3⟩ := hval hk
+      exact ⟨τ, h1, by omega, by rw [hA' _ h2]; exact h3⟩
+
 end Flurry.Proto.BinX
